@@ -123,6 +123,18 @@ func marshalCannotFail(c *Ctx, v ssa.Value) string {
 				return "marshalling a package-level constant OID cannot fail"
 			}
 		}
+		// the OID handed through a helper: every origin is a package-level value
+		if o := c.newProv().Origins(v); len(o) > 0 {
+			all := true
+			for _, x := range o {
+				if !strings.HasPrefix(x, "G(") {
+					all = false
+				}
+			}
+			if all {
+				return "marshalling a package-level constant OID (chosen by a helper) cannot fail"
+			}
+		}
 		return ""
 	}
 	if st, ok := t.Underlying().(*types.Struct); ok && st.NumFields() > 0 {
